@@ -419,6 +419,12 @@ var targetedC20 = []struct {
 	// from them) must not show in the next run of the same program
 	{"typelist-after-declarations", false, []string{"(def tn (len (typelist)))", "(struct Tl1 [(field p: (* Tl1)) (field q: ([]Tl1))])", "(def tv (Tl1))", "(str [tn (len (typelist))])"}},
 	{"struct-named-like-a-builtin-type", false, []string{"(struct Zb9 [(field n: int64) (field s: string)])", "(str (Zb9 n: 1 s: \"x\"))", "(type? 1)", "(type? \"s\")", "(struct int64 [(field a: string)])", "(struct string)"}},
+	{"defmap-then-struct", false, []string{"(defmap Dl1)", "(def dr (Dl1 a: 1))", "(struct Dl1 [(field b: string)])", "(str dr)"}},
+	{"compare-records", false, []string{
+		"(def ra (hash a: 1 b: \"x\" c: [1 2] d: 2.5 e: true f: 7 g: 8 h: 9))", "(def rb (hash a: 2 b: 3 c: \"y\" d: (hash) e: nil f: 6 g: 9 h: 1))",
+		"(str (== ra rb))", "(str (< ra rb))", "(str (> ra rb))", "(str (!= ra rb))", "(str (== [ra] [rb]))", "(str (< (list ra 1) (list rb 0)))",
+		"(struct Cr1 [(field a: int64) (field b: string) (field c: float64) (field d: bool)])", "(def ca (Cr1 a: 1 b: \"x\" c: 1.5 d: true))", "(def cb (Cr1 a: 2 b: \"y\" c: 2.5 d: false))",
+		"(str (== ca cb))", "(str (< ca cb))", "(str (== ca ca))", "(str (< cb ca))"}},
 	{"names-after-declarations", false, []string{"(def before (defined? \"Nm1\"))", "(struct Nm1 [(field p: (* Nm1)) (field q: ([]int64))])", "(def nv (Nm1 q: [1 2]))", "(str [before (symnum (quote freshlyInterned)) (< (quote int64) (quote zzfresh))])"}},
 	{"struct-decl", false, []string{"(struct Car [(field Id: int64 e:0) (field Name: string e:1)])", "(def c (Car Id: 1 Name: \"x\"))", "(str c)", "(json c)", "(str (unjson (json c)))"}},
 	{"defmap-record", false, []string{"(defmap ranch)", "(def r (ranch a:1 b:2 c:3 d:4 e:5 f:6 g:7 h:8 i:9))", "(str r)", "(json r)", "(str (unjson (json r)))"}},
@@ -617,6 +623,43 @@ func genC20Others(r *kernel.RNG, tier string, i int) interface{} {
 	return sc
 }
 
+// genC20OnRecords: every name of the interpreter applied to records, hashes and arrays of them: whatever a builtin
+// lists, walks or describes of a record (fields, methods, members, types) must come out in one order
+func genC20OnRecords(r *kernel.RNG, tier string, i int) interface{} {
+	names := c01Names()
+	per := 60
+	lo := (i * per) % len(names)
+	prog := []string{
+		"(struct Or1 [(field Alpha: int64 e:0) (field Beta: string e:1) (field Gamma: float64 e:2) (field Delta: bool e:3) (field Eps: ([]int64) e:4)])",
+		"(def o1 (Or1 Alpha: 1 Beta: \"b\" Gamma: 1.5 Delta: true Eps: [1 2]))", "(defmap om)", "(def o2 (om a: 1 b: 2 c: 3 d: 4 e: 5))",
+		"(def o3 (hash k1: 1 k2: 2 k3: 3 k4: 4 k5: 5 k6: 6))", "(def o4 (package \"op\" { A := 1; B := 2; C := 3; D := 4 }))",
+	}
+	// every call gets records of its own, bound locally: a special form among the names (def, defmap, set, rmsym ...)
+	// must not take the shared ones away from the calls behind it
+	mk := "(let [o1 (Or1 Alpha: 1 Beta: \"b\" Gamma: 1.5 Delta: true Eps: [1 2]) o3 (hash k1: 1 k2: 2 k3: 3 k4: 4 k5: 5 k6: 6)] "
+	args := []string{"o1", "o3", "[o1 o1]", "(list o1 o3)", "o1 o3", "(& o1)", "o2", "o4"}
+	for j := 0; j < per; j++ {
+		n := names[(lo+j)%len(names)]
+		skip := false
+		for _, ex := range []string{"gensym", "now", "random", "timeit", "millis", "sleep", "_closdump", "_ls", "dump", "pretty", "typelist", "registerDemoFunctions", "system", "exit", "stop", "sys", "getenv", "setenv", "slurpf", "owritef", "writef", "save", "bsave", "bload", "gob", "greenpack", "readf", "source", "req", "include", "import", "cd", "pwd", "Getwd", "chdir", "print"} {
+			if strings.Contains(n, ex) {
+				skip = true
+			}
+		}
+		if skip || c01SkipNames[n] {
+			continue
+		}
+		a := args[(i+j)%len(args)]
+		prog = append(prog, mk+"(str ("+n+" o1)))", mk+"(str ("+n+" "+a+")))")
+		if r.Chance(0.3) {
+			prog = append(prog, mk+"(str ("+n+" "+r.Pick(args)+" "+r.Pick(args)+")))")
+		}
+	}
+	sc := &c20Scenario{Name: fmt.Sprintf("on-records-%d", i), Program: prog, Budget: 500000}
+	sc.Orders, sc.History = genOrders(r, 4)
+	return sc
+}
+
 func shrinkC20(body json.RawMessage) []json.RawMessage {
 	var sc c20Scenario
 	if json.Unmarshal(body, &sc) != nil {
@@ -694,6 +737,13 @@ func init() {
 			{Name: "targeted", Count: cnt(len(targetedC20)*2, len(targetedC20)*12), Generate: genC20Targeted, Execute: execC20, Shrink: shrinkC20, Isolated: true},
 			{Name: "corpus", Count: cnt(100, 600), Generate: genC20Corpus, Execute: execC20, Shrink: shrinkC20, Isolated: true},
 			{Name: "generated", Count: cnt(150, 3000), Generate: genC20Generated, Execute: execC20, Shrink: shrinkC20, Isolated: true},
+			{Name: "on-records", Count: func(tier string) int {
+				n := (len(c01Names()) + 59) / 60
+				if tier == "thorough" {
+					return n * 6
+				}
+				return n
+			}, Generate: genC20OnRecords, Execute: execC20, Shrink: shrinkC20, Isolated: true},
 			{Name: "other-generators", Count: cnt(80, 3000), Generate: genC20Others, Execute: execC20, Shrink: shrinkC20, Isolated: true},
 		},
 	})
